@@ -109,8 +109,10 @@ impl Aggregator {
             }
             TopicLogSyncEvent::SessionFinished { metrics } => {
                 self.handle_session_end(session_id);
-                self.total_bytes_sent += metrics.sent_bytes();
-                self.total_bytes_received += metrics.received_bytes();
+                // The bytes of the sync phase were already added to the topic totals when the
+                // session reported `SyncFinished`, only the live phase is new here.
+                self.total_bytes_sent += metrics.sent_live_bytes;
+                self.total_bytes_received += metrics.received_live_bytes;
                 None
             }
             TopicLogSyncEvent::Failed { error } => {
